@@ -760,6 +760,7 @@ func runC10(c *Ctx) {
 
 	// ---- MapExp.format / MarshalJSON vs the model ----
 	c10Literals(c, nlit)
+	c10Nested(c, nlit/2)
 	c10CoreMaps(c, boost["core-argument-maps"])
 }
 
@@ -833,6 +834,57 @@ func c10GenMap(rng *rand.Rand, depth int) *syntax.MapExp {
 		m.Value[k] = c10GenExp(rng, depth)
 	}
 	return m
+}
+
+// nested map literal -> the driver's tree encoding; objects in Go's own iteration order (or reversed)
+func c10TreeEnc(e syntax.Exp, rev bool) string {
+	m, ok := e.(*syntax.MapExp)
+	if !ok || m.Value == nil {
+		b, _ := e.MarshalJSON()
+		return "L " + hx(string(b))
+	}
+	var ents []string
+	for k, v := range m.Value {
+		ents = append(ents, hx(k)+" "+hx(syntax.VerifQuoteString(k))+" "+c10TreeEnc(v, rev))
+	}
+	if rev {
+		for a, b := 0, len(ents)-1; a < b; a, b = a+1, b-1 {
+			ents[a], ents[b] = ents[b], ents[a]
+		}
+	}
+	return strings.TrimSpace(fmt.Sprintf("O %d %s", len(ents), strings.Join(ents, " ")))
+}
+
+func c10Nested(c *Ctx, n int) {
+	r := c.Res
+	var reqs [][]string
+	var want []string
+	for i := 0; i < n; i++ {
+		m := c10GenMap(c.Rng, 3)
+		if len(m.Value) == 0 {
+			continue
+		}
+		jb, err := m.MarshalJSON()
+		if err != nil {
+			continue
+		}
+		for _, rev := range []bool{false, true} {
+			reqs = append(reqs, []string{"C10.nested", c10TreeEnc(m, rev)})
+			want = append(want, string(jb))
+		}
+	}
+	reps := c.Drv.AskBatch(reqs)
+	for i := range reqs {
+		f := strings.Fields(reps[i])
+		r.Evals++
+		if len(f) != 2 || f[1] != "true" || unhx(f[0]) != want[i] {
+			r.violate(Violation{Kind: "correspondence", Key: "C10:model-mismatch:nested-json",
+				What:  "MapExp.MarshalJSON of a nested literal differs from the Lean nested emitter (sorted keys at every depth)",
+				Input: map[string]interface{}{"request": reqs[i]}, Impl: want[i], Model: reps[i],
+				Broken: "correspondence C10.nested (Martian.Determinism.JTree.emit)"})
+		}
+	}
+	r.hist("nested-literal-maps")
 }
 
 func c10Literals(c *Ctx, n int) {
